@@ -499,6 +499,13 @@ def worker_single(rec, shard, nshards, scratch, max_rows, thorough, seed):
         rows = [{"onset": str(1.5 + 0.5 * i), "duration": str(1 + i), "trial_type": tt[i], "code": "1", "response_time": "0.3"}
                 for i in range(3)]
         runs.append((tabs[0][0], rows))
+    # runs in which the row that ends latest is the first, a middle or the last one
+    for durs in (("1", "10", "1"), ("10", "1", "1"), ("1", "1", "10"), ("1", "10", "1", "1")):
+        for tail in ((), ("b",)):
+            tt = ("a",) * len(durs) + tail
+            rows = [{"onset": str(1.0 + 0.5 * i), "duration": (durs + ("0.5",))[i], "trial_type": tt[i], "code": "1",
+                     "response_time": "0.3"} for i in range(len(tt))]
+            runs.append((tabs[0][0], rows))
     base = len(tabs)
     tabs = tabs + runs
     cases += [(i, base + j) for i in range(len(psets)) if psets[i]["operation"] == "merge_consecutive"
